@@ -1391,7 +1391,9 @@ def lst2(units, R):
                 missing = []
                 if not has('%s->prev' % A, N):
                     missing.append('%s->prev = %s' % (A, N))
-                if not has('%s->prev->next' % N, N):
+                if not has('%s->prev->next' % N, N) and not has('%s->prev->next' % A, N):
+                    # the predecessor is reached through the new element, or through the old one while it still points there
+                    # (the order of the stores is SHP1's business)
                     missing.append('%s->prev->next = %s' % (N, N))
                 if not any(rr == N for (ll, rr) in child_stores):
                     missing.append('<parent>->child = %s' % N)
